@@ -4,6 +4,7 @@ draws).  Proofs in Env/PacMan/Lemmas.lean.
 -/
 import JumanjiModel.Env.PacMan.Lemmas
 import JumanjiModel.Env.PacMan.BoundsLemmas
+import JumanjiModel.Env.PacMan.ConsistentLemmas
 open Jm PacMan
 
 namespace Props.C04
@@ -59,6 +60,60 @@ theorem pacman_player_stays_free_partial (tl : Int) (s : State) (a : Nat) (d : D
 theorem pacman_maze_fixed (tl : Int) (s : State) (a : Int) (d : Draw) :
     (step tl s a d).1.grid = s.grid ∧ (step tl s a d).1.initGhosts = s.initGhosts :=
   PacMan.maze_fixed tl s a d
+
+/-- the consistency predicate (rectangular maze; player, the four ghosts and their origins on free cells
+inside it; remaining pellets / power-ups on free cells; when cell (0,0) is a wall the pellet counter is the
+number of remaining pellets) is preserved by EVERY step: all states, any action value, any time limit, any
+admissible ghost draw (each ghost stays or moves to a walkable neighbour).  Extra hypothesis `hN`: no pellet
+cell is listed twice — preserved as well, holds for every generated state (`pacman_reset_nodup`) and is
+needed (`pacman_step_consistent_needs_nodup`). -/
+theorem pacman_step_consistent (tl : Int) (s : State) (a : Int) (d : Draw) (hC : Consistent s)
+    (hN : (nonzero s.pelletLocs).Nodup) (hd : validGhostDraw s d = true) :
+    Consistent (step tl s a d).1 ∧ (nonzero (step tl s a d).1.pelletLocs).Nodup :=
+  PacMan.step_consistent tl s a d hC hN hd
+
+/-- the player part of the above for every action value (the `_partial` statement above restricted `a ≤ 4`) -/
+theorem pacman_player_stays_free (tl : Int) (s : State) (a : Int) (d : Draw)
+    (hs : Jx.Grid.shaped s.grid (xSize s.grid) (ySize s.grid) = true)
+    (hx : 0 < xSize s.grid) (hy : 0 < ySize s.grid) (hf : free s.grid s.player.1 s.player.2) :
+    free (step tl s a d).1.grid (step tl s a d).1.player.1 (step tl s a d).1.player.2 :=
+  PacMan.nextPlayer_free s a hs hx hy hf
+
+/-- a 3 × 4 maze with one corridor; the four ghosts share its right end -/
+def pacmanCEx : State :=
+  { grid := [[0, 0, 0, 0], [0, 1, 1, 1], [0, 0, 0, 0]], pellets := 2, frightened := 0,
+    pelletLocs := [(1, 1), (2, 1), (0, 0)], powerUps := [(3, 1)], player := (1, 2),
+    ghosts := [(3, 1), (3, 1), (3, 1), (3, 1)], initGhosts := [(3, 1), (3, 1), (3, 1), (3, 1)],
+    oldGhosts := [(3, 1), (3, 1), (3, 1), (3, 1)], ghostInitSteps := [0, 0, 0, 0], ghostActions := [1, 1, 1, 1],
+    lastDirection := 0, dead := false, ghostStarts := [0, 0, 0, 0], stepCount := 0,
+    ghostEaten := [true, true, true, true], score := 0 }
+/-- ghosts 0 and 1 move to the neighbouring free cell, ghosts 2 and 3 stay -/
+def pacmanCDraw : Draw := { paths := [(2, 1), (2, 1), (3, 1), (3, 1)], actions := [1, 1, 4, 4] }
+
+example : Consistent pacmanCEx ∧ (nonzero pacmanCEx.pelletLocs).Nodup ∧
+    validGhostDraw pacmanCEx pacmanCDraw = true := by decide
+example : Consistent (step 10 pacmanCEx 1 pacmanCDraw).1 ∧ (step 10 pacmanCEx 1 pacmanCDraw).1.pellets = 1 := by
+  decide +kernel
+
+/-- the same maze with the pellet cell (1,1) listed twice (counter 2) -/
+def pacmanCDup : State := { pacmanCEx with pelletLocs := [(1, 1), (1, 1)] }
+def pacmanCStay : Draw := { paths := pacmanCDup.ghosts, actions := [4, 4, 4, 4] }
+
+/-- without `hN` the statement is false: with a pellet cell listed twice, eating it zeroes both entries but
+decrements the counter once, so the successor state is not consistent (counter 1, no pellet left) -/
+theorem pacman_step_consistent_needs_nodup :
+    Consistent pacmanCDup ∧ validGhostDraw pacmanCDup pacmanCStay = true ∧
+    Jx.Grid.get pacmanCDup.grid 1 0 0 = 0 ∧ ¬ (nonzero pacmanCDup.pelletLocs).Nodup ∧
+    ¬ Consistent (step 10 pacmanCDup 1 pacmanCStay).1 := by decide +kernel
+
+/-- the ASCII parser enumerates distinct cells -/
+theorem pacman_cellsWith_nodup (maze : List (List Char)) (p : Char → Bool) : (cellsWith maze p).Nodup :=
+  PacMan.cellsWith_nodup maze p
+
+/-- every state the ASCII generator builds lists no pellet cell twice (hypothesis `hN` of
+`pacman_step_consistent`) -/
+theorem pacman_reset_nodup (maze : List (List Char)) (s : State) (h : resetState maze = some s) :
+    (nonzero s.pelletLocs).Nodup := PacMan.resetState_nodup maze s h
 end Props.C07
 
 namespace Props.C11
